@@ -285,6 +285,9 @@ def mini_scenario(
     acts += host_actions("client_1")
     acts += host_actions("server_1", services=("web-server", "database-service"), apps=(), folder="docs", file="a.txt") if False else []
     acts += missing_target_actions("client_1")
+    # pre-installed software that the scenario does not configure (no target url / no server address)
+    acts.append(("node-application-execute", {"node_name": "server_1", "application_name": "web-browser"}))
+    acts.append(("node-application-execute", {"node_name": "client_2", "application_name": "data-manipulation-bot"}))
     if kind != "switched":
         acts += router_actions("router_1")
     acts += list(extra_actions)
